@@ -9,6 +9,7 @@
   `Mpz.mpn_mul` (the schoolbook product: the algorithm dispatch of mpn_mul is C01's subject).
 -/
 import Mpir.Model.AllocSafeMpz3
+import Mpir.Model.Rand
 namespace Mpir.AllocSafe
 open Mpir
 open Mpir.Mpz (sgn)
@@ -382,5 +383,66 @@ def tdiv_r (minus : Nat) (s : St) (rem num den : Nat) : Option St :=
       some (s.setSize rem (sgn (ns < 0) dl'))                                 -- :93
 
 def mpz_tdiv_r (s : St) (rem num den : Nat) : Option St := tdiv_r 0 s rem num den
+
+/-! ### mpf: a destination of `PREC + 1` limbs that is never reallocated — mpf/urandomb.c
+
+    An `mpf_t` owns a block of `_mp_prec + 1` limbs (mpf/init2.c) for its whole life; every function must keep its stores inside
+    it.  One variable is enough here (mpf_urandomb has no mpf operand besides the destination). -/
+
+/-- an `mpf_t`: `_mp_prec`, `_mp_size`, `_mp_exp`, and the block `_mp_d` points to -/
+structure FObj where
+  prec : Nat
+  size : Int
+  exp : Int
+  buf : Buf
+  deriving Repr, DecidableEq
+
+structure FSt where
+  o : FObj
+  ok : Bool
+
+/-- store `l` to rp[off, off + |l|) -/
+def FSt.wr (s : FSt) (off : Nat) (l : List Nat) : FSt :=
+  let r := s.o.buf.write off l
+  { o := { s.o with buf := r.1 }, ok := s.ok && r.2 }
+
+/-- the limbs rp[0, n), and the state with the access checked -/
+def FSt.rd (s : FSt) (n : Nat) : List Nat × FSt :=
+  let r := s.o.buf.read 0 n
+  (r.1, { s with ok := s.ok && r.2 })
+
+/-- an mpf_t as mpf_init2 leaves it: `prec + 1` limbs (uninitialised), value 0 -/
+def mkF (prec : Nat) : FSt := ⟨⟨prec, 0, 0, Buf.new (prec + 1)⟩, true⟩
+
+/-- mpf/urandomb.c:50-58: `while (nlimbs != 0 && rp[nlimbs - 1] == 0) { nlimbs--; exp--; }` (reads rp[nlimbs - 1] downwards),
+    `EXP (rop) = (nlimbs == 0 ? 0 : exp); SIZ (rop) = nlimbs` -/
+def mpf_urandomb_fin (s : FSt) (nlimbs : Nat) : FSt :=
+  let r := s.rd nlimbs
+  let q := Rand.mpfStrip r.1
+  { r.2 with o := { r.2.o with exp := if q.1.length = 0 then 0 else q.2, size := q.1.length } }
+
+/-- mpf/urandomb.c:48-49: `if (nbits % GMP_NUMB_BITS != 0) mpn_lshift (rp, rp, nlimbs, GMP_NUMB_BITS - nbits % GMP_NUMB_BITS)` -/
+def mpf_urandomb_shift (s : FSt) (nlimbs nbits : Nat) : FSt :=
+  if nbits % 64 ≠ 0 then
+    let r := s.rd nlimbs
+    r.2.wr 0 (toLimbs nlimbs ((val r.1 <<< (64 - nbits % 64)) % 2 ^ (64 * nlimbs)))
+  else s
+
+/-- mpf_urandomb (rop, rstate, nbits), mpf/urandomb.c:28-60.  `pplus` = 0 in the C (`prec = PREC (rop)`); 1 is the seeded
+    variant `prec = PREC (rop) + 1`.  `_gmp_rand (rp, rstate, nbits)` stores the BITS_TO_LIMBS (nbits) limbs of the generator's
+    draw (C19's models of the generators, Mpir/Model/Rand.lean). -/
+def mpf_urandomb (pplus : Nat) (s : FSt) (g : Rand.Gen) (nbits : Nat) : FSt × Rand.Gen :=
+  let nlimbs0 := Rand.bitsToLimbs nbits                                       -- urandomb.c:36
+  let prec := s.o.prec + pplus                                                -- :37
+  let big := nlimbs0 > prec + 1 || nlimbs0 == 0                               -- :39
+  let nlimbs := if big then prec + 1 else nlimbs0                             -- :41
+  let nbits := if big then nlimbs * 64 else nbits                             -- :42
+  let p := g.get nbits
+  let s := s.wr 0 (toLimbs nlimbs (p.1 % 2 ^ (64 * nlimbs)))                  -- :45 _gmp_rand (rp, rstate, nbits)
+  let s := mpf_urandomb_shift s nlimbs nbits                                  -- :48-49
+  (mpf_urandomb_fin s nlimbs, p.2)                                            -- :50-58
+
+/-- what the harness prints of an mpf_t: limbs of the block, SIZ, EXP, the |SIZ| limbs -/
+def FSt.out (s : FSt) : Nat × Rand.MpfOut := (s.o.buf.alloc, ⟨s.o.size.natAbs, s.o.exp, s.o.buf.limbs.take s.o.size.natAbs⟩)
 
 end Mpir.AllocSafe
